@@ -2,7 +2,7 @@
 from tools.vlib import *
 
 PID = "C33"
-READY = False
+READY = True
 MANIFEST = {
     "level_text": "Lean 4 theorems, for every datagram (any length) and every 12-byte transaction id: the model of "
                   "parse_stun_response performs no read outside the datagram or the transaction id (C33.safe), and its result equals "
